@@ -3,6 +3,6 @@ CONSTANTS
   MaxProcs = 4
   MaxOps = 3
 
-INVARIANTS RunningListedOnce LookupRunning ReuseRule NoResurrection
+INVARIANTS RunningListedOnce LookupRunning ReuseRule NoResurrection TextLookup TextLookupFinds
 PROPERTIES IdStable
 CHECK_DEADLOCK FALSE
